@@ -19,14 +19,22 @@ MANIFEST = dict(
          "deliver a message, run ANY ready task, run the ready queue FIFO) the messages handed out are a prefix of the channel, all to "
          "one task; a finished body is the concatenation up to the final chunk; accesses of one cached property agree and never change; "
          "stream() after a finished body replays it without touching the channel; body after the stream was taken raises the "
-         "documented RuntimeError; with a disconnect before the final chunk no body-derived access yields a value.  The model is "
+         "documented RuntimeError; with a disconnect before the final chunk no body-derived access yields a value.  Liveness "
+         "(asgi_no_lost_wakeup / asgi_progress / asgi_quiescent_done / asgi_loop_rests / asgi_completion, w_completion): in every "
+         "reachable state the ready queue holds exactly the tasks that can run, once each, a task in receive() is the registered "
+         "receiver and waits for a message not yet delivered, a task awaiting an undone slot is registered on its future; at rest "
+         "every unfinished task waits (through access -> json/form -> body) on receive(); running the queue with 2*(accesses+3) "
+         "fuel always empties it; on a channel with a final chunk or a disconnect, after any events, delivering the rest and "
+         "running the queue finishes every started access.  WSGI: the model loop never stops for lack of fuel and read() is "
+         "called at most total+1 times (pieces+1 when the pieces fit the chunk size).  The model is "
          "compared with baize.asgi.Request on a real asyncio loop stepped deterministically, and with baize.wsgi.Request.",
     note="Modelled, not verified: asyncio (tasks run atomic segments between awaits; the ready queue is FIFO in the correspondence, "
-         "arbitrary in the theorems), CPython async generators, json.loads / parse_qsl (oracle passed per case).  Liveness (every "
-         "access finishes once the final message is delivered) is checked by the correspondence and the oracle only.  multipart "
+         "arbitrary in the safety theorems, FIFO in the fuel bound), CPython async generators, json.loads / parse_qsl (oracle passed "
+         "per case).  Liveness is proved for the model (no fairness assumption is needed: a segment never re-queues itself); that "
+         "the real loop resumes exactly the model's runnable tasks is what the correspondence checks.  multipart "
          "forms belong to C01.",
-    technique="Coq proof (invariant over all schedules of a task/step model, by induction over events) + correspondence on a "
-              "deterministically stepped event loop",
+    technique="Coq proof (invariants over all schedules of a task/step model, by induction over events; liveness by a bookkeeping "
+              "invariant plus a decreasing measure) + correspondence on a deterministically stepped event loop",
     ref="5/C10")
 
 RULE = ("ASGI cases: every access sequence up to length n (quick 3, thorough 4) over {body, stream, stream-1-item, stream-2-items, json, "
@@ -46,8 +54,9 @@ ASSUMPTIONS = ["the server answers receive() calls in call order (scripted recei
                "content types multipart/form-data are outside this property (C01)"]
 EXHAUSTIVE = {"quick": True, "thorough": True}
 PARTIAL = ("asyncio is modelled, not verified: tasks run atomic segments between awaits; the correspondence fixes the ready queue "
-           "to the loop's FIFO order, the theorems hold for every order; liveness (every access finishes once the final message "
-           "is delivered) is established by the correspondence and the oracle only")
+           "to the loop's FIFO order, the safety theorems hold for every order; liveness is proved in the model (no lost wake-up "
+           "in every reachable state for every order; completion after delivering all messages and running the queue FIFO with "
+           "2*(accesses+3) fuel); that asyncio itself wakes a task when its future is done is part of the modelled, not verified, base")
 
 # access kinds
 BODY, STREAM, JSON, FORM, CLOSE, PART = 0, 1, 2, 3, 4, 5
